@@ -3,6 +3,15 @@
   Property theorems about the model `Parsley.Filters` (Model/Filters.lean, Model/Inflate.lean)
   against the declarative encodings of `Parsley.FiltersSpec` (Spec/Filters.lean).
   All statements are universally quantified (no size bounds).
+
+  Obligations (checklib/props/C06.py):
+    hex_roundtrip, chain_roundtrip, decode_stream_roundtrip, flate_glue_complete, flate_glue_rejects,
+    dict_pruned, filters_shape, corrupt_is_error, and the witnesses of the repaired defects
+    (flate_old_glue_truncates, hex_old_witness, hex_old_parity_witness, a85_old_witness)      — this file;
+    a85_roundtrip (+ a85_instance, encodeA85_conformant, a85_decode_encode)                    — Lemmas/FiltersA85.lean;
+    inflate_stored_roundtrip, adler_model_eq_spec (+ example)                                  — Lemmas/FiltersInflate.lean.
+  NOT a theorem: Huffman-coded zlib streams (`LayerEnc.flateAny` takes the Lean inflate's verdict
+  as hypothesis; the tie to the real zlib is the correspondence run).
 -/
 import Parsley.Model.Filters
 import Parsley.Spec.Filters
